@@ -3,7 +3,8 @@
    record: [s (characters), out ("ok" | "valueerror" | "foreign"), atoms, bonds, ct] (see SmilesJudge).
    Classes:  MustAccept  the reference reader accepts and every isotope is tabulated
              MustReject  the reference reader rejects, or an isotope is not tabulated
-             Unspecified a branch opened before the first atom (the parser tolerates "(C)C"; recorded in DESIGN.md) *)
+             Unspecified two leniencies the tokenizer / parser implement on purpose (recorded in DESIGN.md): a branch opened
+                         before the first atom, and a one-digit "%n" closure at the very end of the text *)
 EXTENDS SmilesJudge, Json
 CONSTANT CH
 R == JsonDeserialize("data.json")
@@ -12,7 +13,8 @@ N == Len(R)
 VARIABLES c, i, pos, ps
 vars == <<c, i, pos, ps>>
 
-Unspecified(text) == Len(text) >= 1 /\ text[1] = "("
+Unspecified(text) == \/ Len(text) >= 1 /\ text[1] = "("                              \* "(C)C": branch before the first atom
+                     \/ Len(text) >= 2 /\ text[Len(text) - 1] = "%"               \* "C1CC%1": the tokenizer completes a one-digit %n at the end
 IsoOK(s) == \A k \in 1..Len(s.atoms) : s.atoms[k].iso = 0 \/ \E q \in 1..Len(T.iso[s.atoms[k].z]) : T.iso[s.atoms[k].z][q] = s.atoms[k].iso
 
 Verdict(r, s0) ==
